@@ -38,7 +38,8 @@ func CheckRecursion(rootTypeName string, rootSchema *schema.Schema) error {
 			// Obviously, root type was visited.
 			rootTypeName: {},
 		},
-		path: []string{rootTypeName},
+		path:  []string{rootTypeName},
+		clean: map[*schema.Schema]struct{}{},
 	}
 
 	return rc.check(rootSchema.RootNode(), rootSchema.TypesList())
@@ -52,6 +53,15 @@ type recursionChecker struct {
 	// Necessary for building an error message 'cause user should understand where
 	// recursion was found.
 	path []string
+
+	// clean a set of types which were walked completely without meeting a visited
+	// type. Such a type can't lead to a recursion whatever the path it is reached
+	// by, so there is no need to walk it again.
+	clean map[*schema.Schema]struct{}
+
+	// dropped a number of alternatives which were dropped 'cause they lead to
+	// a recursion. A walk which drops an alternative depends on the path.
+	dropped int
 }
 
 func (c *recursionChecker) check(node schema.Node, types map[string]schema.Type) error {
@@ -174,6 +184,7 @@ func (c *recursionChecker) checkMixedValueNode(
 		// Just return first found error.
 		return errs[0]
 	}
+	c.dropped += len(errs)
 	return nil
 }
 
@@ -190,7 +201,16 @@ func (c *recursionChecker) checkType(typeName string, types map[string]schema.Ty
 		return nil
 	}
 
-	return c.check(t.Schema().RootNode(), t.Schema().TypesList())
+	if _, ok := c.clean[t.Schema()]; ok {
+		return nil
+	}
+
+	dropped := c.dropped
+	err := c.check(t.Schema().RootNode(), t.Schema().TypesList())
+	if err == nil && dropped == c.dropped {
+		c.clean[t.Schema()] = struct{}{}
+	}
+	return err
 }
 
 func (c *recursionChecker) visit(typeName string) bool {
